@@ -154,6 +154,7 @@ static int rd_modify(MPT_INTERFACE(rawdata) *ptr, unsigned dim, const MPT_STRUCT
 static int rd_advance(MPT_INTERFACE(rawdata) *ptr)
 {
 	MPT_STRUCT(RawData) *rd = MPT_baseaddr(RawData, ptr, _rd);
+	const MPT_STRUCT(type_traits) *traits;
 	const MPT_STRUCT(buffer) *buf;
 	long act;
 	
@@ -166,8 +167,9 @@ static int rd_advance(MPT_INTERFACE(rawdata) *ptr)
 	    && act < (long) (buf->_used / sizeof(MPT_STRUCT(rawdata_stage)))) {
 		return act;
 	}
-	/* add cycle placeholder */
-	if (!mpt_array_append(&rd->st, sizeof(MPT_STRUCT(rawdata_stage)), 0)) {
+	/* add cycle placeholder (stage elements need their traits to be finalized) */
+	if (!(traits = mpt_stage_traits())
+	    || !mpt_array_set(&rd->st, traits, traits->size, 0, buf ? buf->_used : 0)) {
 		return 0;
 	}
 	rd->act = act;
